@@ -51,6 +51,13 @@ def step (t : List String) : String :=
   | "CDS" :: rest => match ints? rest with
     | some [d, m, y] => showDate (FinVerif.Gen.DateLogic.next_cds_date (mkDate d m y) 0)
     | _ => "bad-op"
+  | "TBL" :: rest => match ints? rest with
+    -- the whole padded table built by the fold model of `calculate_list` for end year E
+    | some [e] => " ".intercalate ((calcList e).map toString)
+    | _ => "bad-op"
+  | "DIM" :: rest => match ints? rest with
+    | some [m, y] => showExcept toString (FinVerif.Gen.DateLogic.days_in_month m y)
+    | _ => "bad-op"
   | "HI" :: ops =>
     let (_, outs) := ops.foldl (fun (acc : TableState × List String) op =>
       let (s', o) := histOp acc.1 op; (s', acc.2 ++ [o])) (TableState.init, [])
